@@ -1,4 +1,271 @@
-/-! Mst: executable models (no Mathlib imports). -/
+import Solvor.Gen.Kernels
+/-!
+Mst: executable models (no Mathlib imports) for property C13.
+
+* `kruskal`   – mirror of `solvor.mst.kruskal` (stable sort by weight, union–find, early break,
+                `allow_forest`).  The union–find is the *spec-level* one: a component label per
+                node (`union` relabels one class).  This is the model the theorems talk about.
+* `kruskalUF` – the same loop over a literal mirror of `solvor.utils.UnionFind`
+                (parent / rank arrays, recursive `find` with path compression, union by rank).
+                `Theorems.lean` proves that it returns exactly what `kruskal` returns.
+* `prim`      – mirror of `solvor.mst.prim` (heap as "pop the least `(weight, counter)`";
+                the tuples pushed are `(weight, counter, u, v)` and `counter` is unique, so the
+                order never looks at `u`/`v`).
+* Bool checkers evaluated by the driver on the implementation's own output:
+  `chkSpanningTree`, `chkSpanningForest`, `chkMinCert` (cycle-property certificate of
+  minimality), `connectedB`, and the bounded definitional oracle `mstBrute`.
+-/
 namespace Solvor.Mst
+open Solvor.Gen (Status)
+
+structure Edge where
+  u : Nat
+  v : Nat
+  w : Int
+  deriving DecidableEq, Repr, Inhabited
+
+/-- total weight of an edge list -/
+def weight : List Edge → Int
+  | [] => 0
+  | e :: es => e.w + weight es
+
+/-! ### spec-level union–find: one label per node -/
+
+/-- merge the class of `b` into the class of `a` -/
+def union (lab : Nat → Nat) (a b : Nat) : Nat → Nat :=
+  let la := lab a
+  let lb := lab b
+  fun i => let li := lab i; if li = lb then la else li
+
+/-- component labels after joining the endpoints of every edge of `F` -/
+def labOf (F : List Edge) : Nat → Nat := F.foldl (fun lab e => union lab e.u e.v) id
+
+/-! ### Kruskal -/
+
+structure KState where
+  lab : Nat → Nat
+  acc : List Edge
+  total : Int
+  iters : Nat
+
+/-- the `for u, v, w in sorted_edges` loop, `break` included -/
+def kloop (n : Nat) : List Edge → KState → KState
+  | [], s => s
+  | e :: es, s =>
+    if s.lab e.u = s.lab e.v then kloop n es { s with iters := s.iters + 1 }
+    else
+      let s' : KState := ⟨union s.lab e.u e.v, s.acc ++ [e], s.total + e.w, s.iters + 1⟩
+      if s'.acc.length + 1 = n then s' else kloop n es s'
+
+structure Result where
+  status : Status
+  sol : Option (List Edge)
+  /-- `none` stands for `float("inf")` -/
+  obj : Option Int
+  iters : Nat
+  evals : Nat
+  deriving Repr, DecidableEq
+
+/-- `sorted(edges, key=lambda e: e[2])` (stable) -/
+def sortEdges (E : List Edge) : List Edge := E.mergeSort (fun a b => decide (a.w ≤ b.w))
+
+def kinit : KState := ⟨id, [], 0, 0⟩
+
+/-- what `kruskal` returns from the state the loop ended in -/
+def kfinish (n : Nat) (m : Nat) (allowForest : Bool) (acc : List Edge) (total : Int) (iters : Nat) : Result :=
+  if acc.length + 1 < n then
+    if allowForest then ⟨.FEASIBLE, some acc, some total, iters, m⟩
+    else ⟨.INFEASIBLE, none, none, iters, m⟩
+  else ⟨.OPTIMAL, some acc, some total, iters, m⟩
+
+/-- `kruskal(n, E, allow_forest=…)` for `n ≥ 1` and endpoints `< n` (other inputs raise). -/
+def kruskal (n : Nat) (E : List Edge) (allowForest : Bool) : Result :=
+  let s := kloop n (sortEdges E) kinit
+  kfinish n E.length allowForest s.acc s.total s.iters
+
+/-! ### literal mirror of `UnionFind` (parent / rank, path compression, union by rank) -/
+
+structure UF where
+  parent : List Nat
+  rank : List Nat
+
+def UF.init (n : Nat) : UF := ⟨List.range n, List.replicate n 0⟩
+
+/-- `find` with path compression; one unit of fuel per recursive call -/
+def UF.find : Nat → UF → Nat → UF × Nat
+  | 0, uf, x => (uf, uf.parent.getD x x)
+  | fuel + 1, uf, x =>
+    let p := uf.parent.getD x x
+    if p ≠ x then
+      let (uf', r) := UF.find fuel uf p
+      ({ uf' with parent := uf'.parent.set x r }, r)
+    else (uf, p)
+
+/-- `union`: returns the new structure and whether two classes were merged -/
+def UF.union (fuel : Nat) (uf : UF) (x y : Nat) : UF × Bool :=
+  let (uf1, rx) := UF.find fuel uf x
+  let (uf2, ry) := UF.find fuel uf1 y
+  if rx = ry then (uf2, false)
+  else
+    let (rx, ry) := if uf2.rank.getD rx 0 < uf2.rank.getD ry 0 then (ry, rx) else (rx, ry)
+    let par := uf2.parent.set ry rx
+    let rk := if uf2.rank.getD rx 0 = uf2.rank.getD ry 0 then uf2.rank.set rx (uf2.rank.getD rx 0 + 1) else uf2.rank
+    (⟨par, rk⟩, true)
+
+structure UState where
+  uf : UF
+  acc : List Edge
+  total : Int
+  iters : Nat
+
+def uloop (n : Nat) : List Edge → UState → UState
+  | [], s => s
+  | e :: es, s =>
+    let (uf', merged) := UF.union n s.uf e.u e.v
+    if !merged then uloop n es { s with uf := uf', iters := s.iters + 1 }
+    else
+      let s' : UState := ⟨uf', s.acc ++ [e], s.total + e.w, s.iters + 1⟩
+      if s'.acc.length + 1 = n then s' else uloop n es s'
+
+def kruskalUF (n : Nat) (E : List Edge) (allowForest : Bool) : Result :=
+  let s := uloop n (sortEdges E) ⟨UF.init n, [], 0, 0⟩
+  kfinish n E.length allowForest s.acc s.total s.iters
+
+/-! ### Prim -/
+
+/-- heap entry `(weight, counter, u, v)` -/
+structure HItem where
+  w : Int
+  c : Nat
+  u : Nat
+  v : Nat
+  deriving DecidableEq, Repr, Inhabited
+
+/-- tuple order on `(weight, counter)`; counters are unique so `u`, `v` are never compared -/
+def hLe (a b : HItem) : Bool := decide (a.w < b.w) || (decide (a.w = b.w) && decide (a.c ≤ b.c))
+
+/-- `heappop`: the least entry and the remaining ones -/
+def popMin : List HItem → Option (HItem × List HItem)
+  | [] => none
+  | x :: xs =>
+    match popMin xs with
+    | none => some (x, [])
+    | some (m, rest) => if hLe x m then some (x, m :: rest) else some (m, x :: rest)
+
+/-- adjacency: `adj[u]` = list of `(neighbour, weight)` in the order the dict value iterates -/
+abbrev Adj := List (List (Nat × Int))
+
+def Adj.nbrs (adj : Adj) (u : Nat) : List (Nat × Int) := adj.getD u []
+
+/-- entries pushed for the neighbours `nb` of `src`, counters `c, c+1, …` -/
+def mkItems (src : Nat) (c : Nat) : List (Nat × Int) → List HItem
+  | [] => []
+  | (y, w) :: nb => ⟨w, c, src, y⟩ :: mkItems src (c + 1) nb
+
+structure PState where
+  inT : List Nat
+  acc : List Edge
+  total : Int
+  counter : Nat
+  heap : List HItem
+  iters : Nat
+  evals : Nat
+
+/-- the `while heap and len(in_mst) < len(nodes)` loop; one unit of fuel per iteration -/
+def ploop (adj : Adj) (n : Nat) : Nat → PState → PState
+  | 0, s => s
+  | fuel + 1, s =>
+    if s.inT.length < n then
+      match popMin s.heap with
+      | none => s
+      | some (it, rest) =>
+        if s.inT.contains it.v then ploop adj n fuel { s with heap := rest, iters := s.iters + 1 }
+        else
+          let inT' := it.v :: s.inT
+          let items := mkItems it.v s.counter ((adj.nbrs it.v).filter fun p => !inT'.contains p.1)
+          ploop adj n fuel ⟨inT', s.acc ++ [⟨it.u, it.v, it.w⟩], s.total + it.w, s.counter + items.length,
+            rest ++ items, s.iters + 1, s.evals + items.length⟩
+    else s
+
+/-- number of arcs (= upper bound on pushes) -/
+def Adj.size (adj : Adj) : Nat := (adj.map List.length).sum
+
+def pinit (adj : Adj) (start : Nat) : PState :=
+  let items := mkItems start 0 (adj.nbrs start)
+  ⟨[start], [], 0, items.length, items, 0, items.length⟩
+
+/-- `prim(graph, start=…)`; nodes are `0 … adj.length-1` in dict-key order, every neighbour is a key -/
+def prim (adj : Adj) (start : Nat) : Result :=
+  if adj.isEmpty then ⟨.OPTIMAL, some [], some 0, 0, 0⟩
+  else
+    let n := adj.length
+    let s := ploop adj n (adj.size + 1) (pinit adj start)
+    if s.inT.length < n then ⟨.INFEASIBLE, none, none, s.iters, s.evals⟩
+    else ⟨.OPTIMAL, some s.acc, some s.total, s.iters, s.evals⟩
+
+/-- the undirected edge list an adjacency structure stands for (one entry per listed arc) -/
+def arcsFrom : Nat → Adj → List Edge
+  | _, [] => []
+  | u, nb :: rest => nb.map (fun p => (⟨u, p.1, p.2⟩ : Edge)) ++ arcsFrom (u + 1) rest
+
+def arcs (adj : Adj) : List Edge := arcsFrom 0 adj
+
+/-! ### verified Bool checkers (spec side) -/
+
+def validB (n : Nat) (E : List Edge) : Bool := E.all fun e => decide (e.u < n) && decide (e.v < n)
+
+def subsetB (T E : List Edge) : Bool := T.all fun e => E.contains e
+
+/-- all nodes `< n` in one component of `F` -/
+def connectedB (n : Nat) (F : List Edge) : Bool :=
+  let lab := labOf F
+  (List.range n).all fun i => lab i == lab 0
+
+/-- every edge joins two different components of the edges before it -/
+def forestGo : (Nat → Nat) → List Edge → Bool
+  | _, [] => true
+  | lab, e :: es => lab e.u != lab e.v && forestGo (union lab e.u e.v) es
+
+def forestB (T : List Edge) : Bool := forestGo id T
+
+/-- `T` joins the endpoints of every edge of `E` -/
+def spansB (E T : List Edge) : Bool :=
+  let lab := labOf T
+  E.all fun e => lab e.u == lab e.v
+
+/-- `T` is a spanning tree of `(n, E)`: edges of the input, `n-1` of them, connecting all nodes -/
+def chkSpanningTree (n : Nat) (E T : List Edge) : Bool :=
+  subsetB T E && (T.length + 1 == n) && connectedB n T
+
+/-- `T` is a spanning forest of `E`: edges of the input, no cycle, same components as the input -/
+def chkSpanningForest (E T : List Edge) : Bool :=
+  subsetB T E && forestB T && spansB E T
+
+/-- cycle-property certificate: the endpoints of every input edge `e` are already joined by the
+tree edges that are no heavier than `e` -/
+def chkMinCert (E T : List Edge) : Bool :=
+  E.all fun e => let lab := labOf (T.filter fun f => decide (f.w ≤ e.w)); lab e.u == lab e.v
+
+/-- number of components among nodes `< n` -/
+def compCount (n : Nat) (F : List Edge) : Nat :=
+  let lab := labOf F
+  ((List.range n).filter fun i => lab i == i).length
+
+/-! ### bounded definitional oracle -/
+
+def subsetsLen : Nat → List Edge → List (List Edge)
+  | 0, _ => [[]]
+  | _ + 1, [] => []
+  | k + 1, e :: es => (subsetsLen k es).map (e :: ·) ++ subsetsLen (k + 1) es
+
+def minOpt : List Int → Option Int
+  | [] => none
+  | x :: xs => match minOpt xs with
+    | none => some x
+    | some m => some (if x ≤ m then x else m)
+
+/-- least weight over all `(n - components)`-subsets of `E` that join everything `E` joins -/
+def mstBrute (n : Nat) (E : List Edge) : Option Int :=
+  minOpt (((subsetsLen (n - compCount n E) E).filter fun T => spansB E T).map weight)
 
 end Solvor.Mst
